@@ -451,6 +451,52 @@ RandVec(fam, nlex, u_) ==
       bounds |-> IF r.ok THEN BoundTexts(r.t) ELSE << >>,
       probes |-> [i \in 1..Len(ps) |-> ProbeRec(r.t, ps[i])]]
 
+\* ------------------------------------------------------------------ group 12: extremes and inherited defaults
+\* parts at both extremes of the type with the whole type between them, refined by ranges that cover the gap, touch one
+\* part only, lie in the gap, or reach from one part to the other (fam 12000 + b, b: index in IntBases; 12010: lengths)
+HugeGapFam(b) ==
+  LET k == IntBases[b]  lo == WidthOf(k).lo  hi == WidthOf(k).hi  s(x) == ShowNum(x)  sg == k \in SIntKinds
+      c50 == T("50")  c100 == T("100")
+      m1 == << <<P1(MinT), P2(c5, c100)>>,
+               <<P2(c5, c100), P1(MaxT)>>,
+               <<P2(MinT, s(Inc(Inc(lo)))), P2(T("110"), T("120"))>>,
+               <<P2(IF sg THEN T("-100") ELSE c1, IF sg THEN T("-1") ELSE c100), P1(MaxT)>>,
+               <<P2(MinT, c5), P2(s(Dec(Dec(hi))), MaxT)>>,
+               <<P1(MinT), P1(MaxT)>>,
+               <<P1(MinT), P2(c5, c100), P1(MaxT)>>,
+               <<P1(s(lo)), P1(s(hi))>> >>
+      m2 == << <<P2(MinT, c50)>>, <<P2(c50, MaxT)>>, <<P2(MinT, MaxT)>>, <<P2(s(Inc(lo)), c50)>>, <<P2(IF sg THEN T("-50") ELSE c1, c50)>>, <<P2(IF sg THEN T("-5") ELSE c2, T("115"))>>,
+               <<P2(IF sg THEN T("-10") ELSE c9, MaxT)>>, <<P1(MinT)>>, <<P1(MaxT)>>, <<P2(c5, c50)>>, <<P2(T("10"), c100)>>, <<P1(c2)>>, <<P2(T("200"), T("300"))>>,
+               <<P2(s(Inc(lo)), s(Inc(Inc(lo))))>>, <<P2(c50, s(Dec(hi)))>>, <<P2(s(Dec(hi)), MaxT)>>, <<P1(MinT), P1(MaxT)>>, <<P2(MinT, c5), P2(c100, MaxT)>>,
+               <<P2(s(lo), s(hi))>> >>
+  IN {Chain(k, <<Rg(m1[i]), Rg(m2[j])>>) : i \in 1..Len(m1), j \in 1..Len(m2)}
+     \cup {Chain(k, <<Rg(m1[i]), Lv0, Rg(m2[j])>>) : i \in 1..Len(m1), j \in {1, 3, 5, 6, 7}}
+     \cup {Chain(k, <<Rg(m1[i])>>) : i \in 1..Len(m1)}
+HugeLenFam ==
+  LET m1 == << <<P2(MinT, c2), P1(MaxT)>>, <<P1(MinT), P2(c5, MaxT)>>, <<P1(MinT), P2(c4, c6), P1(MaxT)>>, <<P1(MinT), P1(MaxT)>> >>
+      m2 == << <<P2(c1, MaxT)>>, <<P2(MinT, MaxT)>>, <<P1(MaxT)>>, <<P1(MinT)>>, <<P2(c0, c2)>>, <<P2(c3, c4)>>, <<P2(c6, MaxT)>>, <<P2(MinT, c5)>>, <<P2(c5, c6)>>, <<P2(c2, c5)>> >>
+  IN {Chain("string", <<Ln(m1[i]), Ln(m2[j])>>) : i \in 1..Len(m1), j \in 1..Len(m2)} \cup {Chain("string", <<Ln(m1[i])>>) : i \in 1..Len(m1)}
+\* a level that adds ONE kind of restriction (or a combination) below a level that gives the default, the inherited
+\* default inside / outside / on the edge of the narrowed value space, at every position of a depth-3 chain
+\* (fam 12100 + r: 1 string, 2 int8, 3 int64, 4 uint64, 5 decimal64 fd 2)
+DefNarrow(k, fd, bases, narrows, defs) ==
+  LET mk(ls) == [Chain(k, ls) EXCEPT !.levels[1].fd = fd] IN
+  UNION {UNION {UNION {
+     {mk(<<WithDef(B, d), n>>), mk(<<WithDef(B, d), n, Lv0>>), mk(<<WithDef(B, d), Lv0, n>>), mk(<<B, WithDef(Lv0, d), n>>), mk(<<B, WithDef(n, d)>>), mk(<<B, n, WithDef(Lv0, d)>>)}
+     \cup {mk(<<WithDef(B, d), n, narrows[j]>>) : j \in 1..Len(narrows)}
+     : d \in defs} : n \in RangeOf(narrows)} : B \in bases}
+DefNarrowFam(r) ==
+  CASE r = 1 -> DefNarrow("string", 0, {Lv0, Ln(<<P2(c1, c6)>>), Pt(<<P0(ReNotB)>>)},
+                          <<Ln(<<P2(c2, c3)>>), Pt(<<P0(ReABC)>>), Pt(<<P0(ReAltABorC)>>), Pt(<<P0(ReAStar), P0(ReDot23)>>), [Lv0 EXCEPT !.len = <<P2(c2, c3)>>, !.pats = <<P0(ReAStar)>>], Ln(<<P1(MaxT)>>)>>,
+                          {<<ca, cb>>, <<ca, cb, cc, ca>>, <<cx, 49>>, <<cc>>, <<ca, cc, cc>>, <<ca, cx, cx>>})
+    [] r = 11 -> DefNarrow("string", 0, {Lv0},
+                          <<Ln(<<P2(c2, c3)>>), Pt(<<P0(ReABC)>>), Pt(<<P0(ReAStar), P0(ReDot23)>>), [Lv0 EXCEPT !.len = <<P2(c2, c3)>>, !.pats = <<P0(ReAStar)>>]>>,
+                          {<<ca, cb>>, <<ca, cb, cc, ca>>, <<cx, 49>>, <<cc>>})
+    [] r \in 2..4 -> LET k == <<"int8", "int64", "uint64">>[r - 1] IN
+                     DefNarrow(k, 0, {Lv0, Rg(<<P2(c0, T("100"))>>)}, <<Rg(<<P2(c2, c4)>>), Rg(<<P2(MinT, c3)>>), Rg(<<P2(c1, c5), P2(c7, c9)>>), Rg(<<P1(MaxT)>>), Rg(<<P2(c6, MaxT)>>)>>,
+                               {c3, c6, c0, T("100"), ShowNum(WidthOf(k).hi)})
+    [] r = 5 -> DefNarrow("decimal64", 2, {Lv0, Rg(<<P2(c1, c9)>>)}, <<Rg(<<P2(T("1.5"), T("2.5"))>>), Rg(<<P2(c2, MaxT)>>), Rg(<<P2(MinT, T("1.99"))>>)>>, {c2, T("2.55"), T("1.5"), T("1.99"), T("2.00")})
+    [] OTHER -> {}
 \* ------------------------------------------------------------------ family table
 \* the chains of an exhaustive family (group = fam \div 1000)
 ChainsOf(fam, maxd) ==
@@ -463,6 +509,7 @@ ChainsOf(fam, maxd) ==
     [] g = 6 -> (CASE r = 1 -> PatFam(maxd) [] r = 2 -> MixFam [] OTHER -> StrDefFam)
     [] g = 7 -> (CASE r = 1 -> KindFam [] r = 2 -> OtherDefFam [] OTHER -> LayoutFam)
     [] g = 8 -> (CASE r \in 1..8 -> DirectIntFam(r) [] r \in 11..16 -> DirectDecFam(r - 10) [] r = 20 -> DirectStrFam [] r = 21 -> DirectOtherFam [] OTHER -> MsgFam)
+    [] g = 12 -> (IF r < 10 THEN HugeGapFam(r) ELSE IF r = 10 THEN HugeLenFam ELSE DefNarrowFam(r - 100))
     [] OTHER -> {}
 \* group 8 (directly constructed types) is probed with lexical variants and multi-byte strings
 Rich(fam) == fam \div 1000 = 8
